@@ -1,4 +1,4 @@
-import Aiortc.Lemmas.C02.DrainPRBoth
+import Aiortc.Lemmas.C02.DrainPRGot3
 /-!
 # C02 (f), continued — partially reliable traffic in the fault history (FORWARD TSN)
 
@@ -127,6 +127,35 @@ theorem C02PR_drains_abstract (s0 : PLink) (h0 : s0.Fresh) (fs : List Fault) (hb
   refine ⟨j, hj, hd, h5, ?_, by rw [h1, h3], by rw [h2, h3], by rw [h4, h3, T_succ]⟩
   rw [h3, hn]; rfl
 
+/-! ## every reliable message arrives
+
+`queuedBy s0 fs` lists, in TSN order, every chunk the history `fs` put into `_outbound_queue` (`_send`'s fragments); `got` is
+the list of TSNs that reached the receiver as DATA chunks.  Supporting invariants (`Lemmas/C02/DrainPRWf*.lean`,
+`DrainPRGot*.lean`): the queue consists of whole messages whose fragments share `max_retransmits` / lifetime (`Wf`), so
+`_maybe_abandon` — which walks from the chunk that exceeded its limits back to the FIRST and on to the LAST fragment — only ever
+marks partially reliable chunks (`maybeAbandon_aw`); a chunk leaves the queues only cumulatively acknowledged or abandoned; the
+receiver's cumulative TSN moves only over TSNs it received or that a FORWARD TSN (≤ the advanced peer ack point) skipped. -/
+
+/-- `_maybe_abandon` marks only partially reliable chunks, in a queue made of whole messages -/
+theorem C02PR_only_pr_abandoned (t : Tx) (pos : Nat) (now : Int) (h : AW t) : AW (t.maybeAbandon pos now).2 :=
+  maybeAbandon_aw t pos now h
+
+/-- **`C02PR_reliable_received`**: fresh pair, ANY finite history, then the continuation: drained within the bound; the chunks
+the history queued are exactly the TSNs `initial + 1 … initial + sentTotal`; EVERY chunk of a reliable message (no
+`max_retransmits`, no lifetime) reached the receiver as a DATA chunk; the receiver's cumulative TSN, the sender's cumulative
+ack and its advanced peer ack point all equal the last TSN assigned (abandoned chunks were skipped by FORWARD TSN). -/
+theorem C02PR_reliable_received (s0 : PLink) (h0 : s0.Fresh) (fs : List Fault) (hb : sentTotal fs + 1 < 2147483648) :
+    ∃ j, j ≤ (fs.foldl PLink.fault s0).drainBound ∧ (PLink.run j (fs.foldl PLink.fault s0)).Drained
+      ∧ (queuedBy s0 fs).length = sentTotal fs
+      ∧ (∀ i c, (queuedBy s0 fs)[i]? = some c → c.tsn = (s0.tx.lastSacked + ((i + 1 : Nat) : Int)) % 4294967296)
+      ∧ (∀ c ∈ queuedBy s0 fs, c.maxRetransmits = none → c.expiry = none →
+          c.tsn ∈ (PLink.run j (fs.foldl PLink.fault s0)).got)
+      ∧ (PLink.run j (fs.foldl PLink.fault s0)).rx.last = (s0.tx.lastSacked + (sentTotal fs : Int)) % 4294967296
+      ∧ (PLink.run j (fs.foldl PLink.fault s0)).tx.lastSacked = (PLink.run j (fs.foldl PLink.fault s0)).rx.last
+      ∧ (PLink.run j (fs.foldl PLink.fault s0)).tx.advAck = (PLink.run j (fs.foldl PLink.fault s0)).rx.last
+      ∧ (PLink.run j (fs.foldl PLink.fault s0)).tx.forwardNeeded = false :=
+  reliable_received s0 h0 fs hb
+
 /-! ## both directions of one association
 
 The model's endpoints never bundle a SACK with DATA (`Endpoint.sendChunk` builds one packet per chunk), and here the sender and
@@ -191,6 +220,10 @@ example : (PLink.run 4 demo1).tx.sentQ = [] ∧ (PLink.run 4 demo1).tx.outQ = []
     ∧ (PLink.run 4 demo1).toRx = [] ∧ (PLink.run 4 demo1).toTx = [] ∧ (PLink.run 4 demo1).tx.t3 = false
     ∧ (PLink.run 4 demo1).rx.last = 102 ∧ (PLink.run 4 demo1).tx.lastSacked = 102 ∧ (PLink.run 4 demo1).tx.advAck = 102
     ∧ (PLink.run 4 demo1).tx.forwardNeeded = false ∧ (PLink.run 4 demo1).got = [101, 101, 102] := by decide
+
+/-- the chunks the history queued: TSN 100 partially reliable, 101 and 102 reliable; the reliable ones arrive, 100 does not -/
+example : (queuedBy demo0 demoFaults).map (fun c => (c.tsn, c.maxRetransmits)) = [(100, some 0), (101, none), (102, none)]
+    ∧ 100 ∉ (PLink.run 4 demo1).got := by decide
 
 /-- hypotheses of `C02PR_epoch`: everything in flight is lost too; only T3 is left -/
 def demo2 : PLink := (demoFaults ++ [Fault.dropData 0]).foldl PLink.fault demo0
